@@ -1,5 +1,5 @@
 #!/usr/bin/env python3
-"""usage: tools/seedconfirm.py <Cxx> <k> [--thorough] [--wt DIR] [--src DIR]
+"""usage: tools/seedconfirm.py <Cxx> <k> [--thorough] [--wt DIR] [--src DIR] [--checks C01,C02] [--as NAME]
 Confirms a seeded defect produced by an independent sub-agent in a scratch worktree and runs
 our check against it in isolation (tools/seedrun.sh):
   1. demo passes on the unchanged worktree            (cargo test --test seed_demo<k>)
@@ -14,6 +14,7 @@ tier = "--thorough" if "--thorough" in sys.argv else "--quick"
 wt = sys.argv[sys.argv.index("--wt") + 1] if "--wt" in sys.argv else "/tmp/seed-" + pid
 src = sys.argv[sys.argv.index("--src") + 1] if "--src" in sys.argv else os.path.join(wt, "_out")
 checks = sys.argv[sys.argv.index("--checks") + 1].split(",") if "--checks" in sys.argv else [pid]
+name = sys.argv[sys.argv.index("--as") + 1] if "--as" in sys.argv else k  # stored as <Cxx>-<name>
 env = dict(os.environ, CARGO_NET_OFFLINE="true", CARGO_TARGET_DIR=os.path.join(wt, "target"))
 notes = open(os.path.join(src, "notes%s.md" % k)).read() if os.path.exists(os.path.join(src, "notes%s.md" % k)) else ""
 if "indicatif_verif" in notes and "RUSTFLAGS" in notes and "--demo-cfg" in sys.argv:
@@ -62,9 +63,9 @@ if rc == 0:
                             "lines": lines[:12], "wall_s": round(time.time() - t0, 1)}
 clean()
 os.makedirs("/verif/.cache/seedres", exist_ok=True)
-json.dump(res, open("/verif/.cache/seedres/%s-%s%s.json" % (pid, k, "" if tier == "--quick" else "-thorough"), "w"), indent=1)
+json.dump(res, open("/verif/.cache/seedres/%s-%s%s.json" % (pid, name, "" if tier == "--quick" else "-thorough"), "w"), indent=1)
 ok = res.get("demo_passes_without") and res.get("patch_applies") and res.get("demo_fails_with") and res.get("suite_passes_with")
-print("%s-%s confirmed=%s %s" % (pid, k, bool(ok), {c: v["caught"] for c, v in res.get("checks", {}).items()}))
+print("%s-%s confirmed=%s %s" % (pid, name, bool(ok), {c: v["caught"] for c, v in res.get("checks", {}).items()}))
 for c, v in res.get("checks", {}).items():
     for l in v["lines"][:4]:
         print("   ", l[:300])
